@@ -302,6 +302,7 @@ type verdict struct {
 	cond       string
 	kind       string
 	binder     bool
+	rlen       int // bytes of the rendered result / error text
 }
 
 // judge applies the per-execution oracle to a load result: it returned, the
@@ -327,9 +328,11 @@ func judge(res *lisp.LVal) (v verdict) {
 	// rendering is what every host does with a result; a value nested deeper
 	// than renderMaxDepth is left to the explicit render sinks
 	if !tooDeepToRender(res) {
-		_ = res.String()
+		v.rlen = len(res.String())
 		if res.Type == lisp.LError {
-			_ = el.ErrText(res)
+			if n := len(el.ErrText(res)); n > v.rlen {
+				v.rlen = n
+			}
 		}
 	} else {
 		v.kind += ":deep"
@@ -391,6 +394,18 @@ func (x *executor) loadOnce(s *envSlot, k *kase, text string) (v verdict, skippe
 	if c != "" {
 		return verdict{class: c, got: g}, false
 	}
+	if k.MaxOut > 0 && v.class == "" {
+		// output-size bound for the small self-containing inputs: a walk that
+		// enumerates paths instead of nodes shows up as exponential output
+		// long before it shows up as a wedge
+		if n := env.Err.Len(); n > v.rlen {
+			v.rlen = n
+		}
+		if v.rlen > k.MaxOut {
+			v.class = "blowup:" + caseTarget(k)
+			v.got = fmt.Sprintf("the case produced %d bytes of output (rendered result / error text / debug output), bound %d", v.rlen, k.MaxOut)
+		}
+	}
 	return v, false
 }
 
@@ -402,6 +417,23 @@ func hygienic(env *el.Env) bool {
 		return false
 	}
 	return env.Err.Len() < 1<<20
+}
+
+// caseTarget names what a case exercises: the callable under test, or the
+// space and the context/generator part of its stratum.
+func caseTarget(k *kase) string {
+	if k.Fn != "" {
+		return k.Fn
+	}
+	t := k.Space
+	if k.Stratum != "" {
+		root := k.Stratum
+		if i := strings.IndexByte(root, '/'); i > 0 {
+			root = root[:i]
+		}
+		t += ":" + root
+	}
+	return t
 }
 
 // runLoad executes a load case; a disagreement seen in a shared runtime is
